@@ -14,6 +14,8 @@
  *                      short write, no error)
  *        ",sticky": every later write to that path fails the same way (errno mode).
  *   IOMON_TRUNC_FAULT=<widx>,<mode>,<arg>   same for ftruncate (errno|exit_before|exit_after)
+ *   IOMON_READ_FAULT=<widx>,<k>,<errno>   fail the k-th (0-based) read()/pread() of watched
+ *                               path widx once with errno (nothing is read)
  *   IOMON_NS_FAULT=<widx>,<op>,<errno>[,<nth>]  fail the nth (default 1st) unlink / open of
  *                               watched path widx with errno (op = unlink|open)
  *   IOMON_DELAY=<widx>,<seed>,<max_us>,<ops>[;...]  sleep before ops on path widx;
@@ -62,6 +64,7 @@ static int f_widx = -1; static uint64_t f_k = 0; static int f_mode = 0; static l
 static volatile int f_fired = 0;
 enum { M_ERRNO = 1, M_TORN = 2, M_EXIT_BEFORE = 3, M_EXIT_AFTER = 4, M_SHORT = 5 };
 static int t_widx = -1; static int t_mode = 0; static long t_arg = 0;
+static int r_widx = -1; static uint64_t r_k = 0; static int r_errno = 0; static uint64_t r_count = 0;
 static int n_widx = -1; static int n_op = 0; static int n_errno = 0; static int n_nth = 1; static int n_count = 0;
 
 static struct { int widx; uint64_t seed; uint64_t max_us; char ops[8]; } delays[MAXW];
@@ -155,6 +158,11 @@ static void do_init(void) {
         if ((t = strtok_r(NULL, ",", &save))) t_mode = mode_of(t);
         if ((t = strtok_r(NULL, ",", &save))) t_arg = atol(t);
         if (!t_mode) t_widx = -1;
+    }
+    const char *rf = getenv("IOMON_READ_FAULT");
+    if (rf) {
+        unsigned long long k; int wi, e;
+        if (sscanf(rf, "%d,%llu,%d", &wi, &k, &e) == 3 && e > 0) { r_widx = wi; r_k = k; r_errno = e; }
     }
     const char *nf = getenv("IOMON_NS_FAULT");
     if (nf) {
@@ -336,6 +344,12 @@ ssize_t writev(int fd, const struct iovec *iov, int cnt) {
     return r;
 }
 
+/* 1 if this read of watched path widx is the one to fail. */
+static int read_fault(int widx) {
+    if (widx < 0 || widx != r_widx) return 0;
+    return __sync_fetch_and_add(&r_count, 1) == r_k;
+}
+
 ssize_t read(int fd, void *buf, size_t n) {
     init();
     int widx = (fd > 2) ? fd_widx(fd) : -1;
@@ -343,6 +357,11 @@ ssize_t read(int fd, void *buf, size_t n) {
     uint64_t seq0 = next_seq();
     off64_t pos = real_lseek64(fd, 0, SEEK_CUR);
     maybe_delay(widx, 'r');
+    if (read_fault(widx)) {
+        log_rec(K_FAULT, seq0, fd, widx, pos, n, -1, r_errno, 300, NULL, 0);
+        errno = r_errno;
+        return -1;
+    }
     ssize_t ret = real_read(fd, buf, n);
     int err = ret < 0 ? errno : 0;
     if (log_reads) log_rec(K_READ, seq0, fd, widx, pos, n, ret, err, 0, NULL, 0);
@@ -356,6 +375,11 @@ ssize_t pread64(int fd, void *buf, size_t n, off64_t off) {
     if (widx < 0) return real_pread64(fd, buf, n, off);
     uint64_t seq0 = next_seq();
     maybe_delay(widx, 'r');
+    if (read_fault(widx)) {
+        log_rec(K_FAULT, seq0, fd, widx, off, n, -1, r_errno, 300, NULL, 0);
+        errno = r_errno;
+        return -1;
+    }
     ssize_t ret = real_pread64(fd, buf, n, off);
     int err = ret < 0 ? errno : 0;
     if (log_reads) log_rec(K_PREAD, seq0, fd, widx, off, n, ret, err, 0, NULL, 0);
